@@ -247,7 +247,7 @@ def gen_random(rng):
     stdin_is_pcap_handle = False
     for _ in range(nops):
         users = [v for v, k in live.items() if k != "err"]
-        if len(live) <= 3 or rng.chance(35):
+        if len(users) <= 2 or rng.chance(22):
             # create a handle
             which = rng.weighted([(50, "open"), (40, "pcap_open"), (10, "pcap_stream")])
             var = "v%d" % nvar
